@@ -11,7 +11,7 @@
 // Piecewise/Max/Min, and the `deep` streams; the child's crash is attributed to its stage by the oracle text.
 // Oracle: loads returns or throws a C++ exception; anything it returns survives vsexp::dump, __str__, hash,
 // __cmp__/eq with itself, eval_double and dumps (exceptions are fine, crashes and failed assertions are not).
-// Allocation guard: see c19_gen.h (single allocations above 64 MiB throw std::bad_alloc -> E:BadAlloc);
+// Allocation guard: see c19_gen.h (single allocations above 16 MiB throw std::bad_alloc -> E:BadAlloc);
 // std::length_error from resize() and cereal::Exception outside load_rcp_basic map to E:Other.
 #include "c19_gen.h"
 #include <symengine/serialize-cereal.h>
@@ -337,7 +337,7 @@ static std::string mutate(Rng &r, const std::string &orig, std::string &tag)
     for (size_t i = 5; i < b.size(); i++)
         if ((b[i] >= '0' && b[i] <= '9') || b[i] == '-')
             digits.push_back(i);
-    static const uint64_t big[] = {0, 1, 2, 3, 1ULL << 20, 1ULL << 23, (1ULL << 26) - 1, 1ULL << 26, 1ULL << 32, 1ULL << 40,
+    static const uint64_t big[] = {0, 1, 2, 3, 1ULL << 20, (1ULL << 21) - 1, 1ULL << 21, (1ULL << 24) - 2, (1ULL << 24) - 1, 1ULL << 24, 1ULL << 32, 1ULL << 40,
                                    (1ULL << 59) - 1, 1ULL << 59, (1ULL << 60) - 1, 1ULL << 60, 1ULL << 61,
                                    (1ULL << 62) - 1, 1ULL << 62, 1ULL << 63, ~0ULL};
     for (int attempt = 0; attempt < 8; attempt++) {
@@ -495,7 +495,7 @@ static void crafted(std::vector<std::pair<std::string, std::string>> &out)
         T("ref-self", s.node(SYMENGINE_SIN, SB::ref(a + 32), a + 32));
     }
     // --- lengths
-    for (uint64_t n : {uint64_t(100), uint64_t(1) << 26, (uint64_t(1) << 26) - 1, uint64_t(1) << 40, (uint64_t(1) << 62) - 1,
+    for (uint64_t n : {uint64_t(100), uint64_t(1) << 24, (uint64_t(1) << 24) - 1, (uint64_t(1) << 24) - 2, uint64_t(1) << 21, (uint64_t(1) << 21) - 1, uint64_t(1) << 20, uint64_t(1) << 40, (uint64_t(1) << 62) - 1,
                        uint64_t(1) << 62, ~uint64_t(0)}) {
         T("length-string", s.node(SYMENGINE_SYMBOL, SB::u64(n) + "abc"));
         T("length-vector", s.node(SYMENGINE_FUNCTIONSYMBOL, SB::str("f") + SB::u64(n)));
@@ -521,6 +521,7 @@ static void crafted(std::vector<std::pair<std::string, std::string>> &out)
 
 void hx_gen(Rng &r, const std::string &tier)
 {
+    fix_aslr();
     bool th = tier == "thorough";
     std::vector<std::pair<std::string, std::string>> cr;
     crafted(cr);
@@ -577,3 +578,4 @@ void hx_gen(Rng &r, const std::string &tier)
             emit("ld " + tohex(b), "random");
     }
 }
+// (c19_gen.h revision 4: guarded generator, ASLR off)
